@@ -1973,22 +1973,22 @@ func runC03(c *ctx) {
 			case "cmp-sign":
 				return c03Plan{AltsPerField: 3, Instances: 1, Positions: 1, Splits: true, SplitBcast: true, MsgLevel: true, Headers: 2}
 			case "cmp-keygen", "cmp-refresh":
-				return c03Plan{AltsPerField: 2, Instances: 1, Positions: 1, Splits: true, SplitBcast: true, MsgLevel: true, Headers: 1, Deal: c03DealVariants}
+				return c03Plan{AltsPerField: 2, Instances: 1, Positions: 1, Splits: true, SplitBcast: true, MsgLevel: true, Headers: 1, Deal: append(append([]string{}, c03DealVariants...), c03DealShareVariants...)}
 			case "cmp-presign":
 				return c03Plan{AltsPerField: 2, Instances: 1, Positions: 1, Splits: true, SplitBcast: true, MsgLevel: true, Headers: 1}
 			case "cmp-presign-full":
 				return c03Plan{AltsPerField: 2, Instances: 1, Positions: 1, OnePerPart: true, AllOfRound: 8, Splits: true}
 			}
-			return c03Plan{Splits: true, MsgLevel: true, Instances: 3, Headers: 3, Deal: c03DealVariants}
+			return c03Plan{Splits: true, MsgLevel: true, Instances: 3, Headers: 3, Deal: append(append([]string{}, c03DealVariants...), c03DealShareVariants...)}
 		}
 		if p.Name == "cmp-keygen" {
 			// the victim of a root of the dealt polynomial: consistent share 0 (accepted) and a wrong share (refused by the victim)
-			return c03Plan{DealOnly: true, Deal: []string{"root-at-victim", "root-at-victim+wrong-share", "redeal+wrong-share"}, DealPositions: 1}
+			return c03Plan{DealOnly: true, Deal: []string{"root-at-victim", "root-at-victim+wrong-share", "redeal+wrong-share", "redeal+negated-share"}, DealPositions: 1}
 		}
 		if p.Heavy {
 			return c03Plan{AltsPerField: 2, Instances: 1, Positions: 1, Splits: false, MsgLevel: true, Headers: 1}
 		}
-		return c03Plan{AltsPerField: 6, Instances: 2, Splits: true, MsgLevel: true, Headers: 3, Deal: c03DealVariants}
+		return c03Plan{AltsPerField: 6, Instances: 2, Splits: true, MsgLevel: true, Headers: 3, Deal: append(append([]string{}, c03DealVariants...), c03DealShareVariants...)}
 	}
 	judge := func(p *c03Proto, out *c03Outcome) { c03Judge(c, orc, p, out) }
 	if only == "" {
